@@ -420,6 +420,12 @@ func (s *ProofStructure) VerifyProofStructure(g *gabikeys.PublicKey, p *Proof) b
 			return false
 		}
 
+		// The commitments must be elements of Z_N^*: with C_i = 0 (mod N) every reconstructed
+		// commitment collapses to zero whatever the responses are, so anything could be "proven"
+		if p.Cs[i].Sign() <= 0 || p.Cs[i].Cmp(g.N) >= 0 {
+			return false
+		}
+
 		if p.Cs[i].BitLen() > g.N.BitLen() ||
 			uint(p.DResponses[i].BitLen()) > s.ld+g.Params.Lh+g.Params.Lstatzk+1 ||
 			uint(p.VResponses[i].BitLen()) > g.Params.Lm+g.Params.Lh+g.Params.Lstatzk+1 {
